@@ -14,13 +14,21 @@ META = dict(
     category="proof",
     text=("CBMC code contracts on the real text of the event machinery: sign classification (reported trigger is Falling iff the "
           "witness was >0 and is no longer >0 and falling is monitored, Rising iff <0 -> not <0 and rising monitored, never both, none "
-          "otherwise; all doubles), estimateRootTime bracket (thorough tier), and the event part of AbstractIntegratorRep::takeOneStep "
-          "with its localisation loop under a loop invariant: reported window t0<=tLow<tHigh<=t1, width <= narrowestWindow, candidates "
-          "non-empty, pending report time never strictly inside, advanced state backed up to tHigh, all interpolation requests in range. "
-          "findEventCandidates enters by a count abstraction (assumed); TimeStepperRep::stepTo and 'no crossing missed' are not decided."),
-    note=("Trusted: CBMC 6.11 + MiniSat, IEEE model, extractor rule tables, IEEE sign lemmas for the secant quotient/product, MinWindow "
-          "and bias lemmas. Assumed: Array_/Vector payload behind findEventCandidates, interpolation/back-up effect on times."),
-    technique="CBMC function contracts (dfcc), loop contract with ghost state on the localisation loop, loop-free full-domain harnesses for the sign algebra",
+          "otherwise; all doubles), estimateRootTime bracket (thorough tier), the loop of IntegratorRep::findEventCandidates over contracted "
+          "sequence stubs under a loop invariant with ghost positions (any number of triggers: equal list lengths, exactly the monitored sign "
+          "changes, in order, earliestTimeEst == min of the estimates, minWindow <= narrowestWindow <= every candidate's requirement), the event part "
+          "of AbstractIntegratorRep::takeOneStep with its localisation loop under a loop invariant (window t0<=tLow<tHigh<=t1, width <= "
+          "narrowestWindow, candidates non-empty, pending report time never strictly inside, advanced state backed up to tHigh), and "
+          "TimeStepperRep::stepTo against the C19 CONTRACTS of Integrator::stepTo/reinitialize with a ghost call log (stepTo called with "
+          "min(nextScheduledReport,time)/min(nextScheduledEvent,time); scheduled ids handled once at t == nextScheduledEvent, triggered ids at the "
+          "top of the localised window, reports at t == nextScheduledReport; reinitialize(lowestModified, shouldTerminate) after every handler "
+          "before the next stepTo; exit only when the simulation is over or the requested time is reached). 'No crossing missed', System::handleEvents "
+          "dispatch and the periodic handlers' time arithmetic are not decided."),
+    note=("Trusted: CBMC 6.11 + MiniSat, IEEE model, extractor rule tables (incl. the textual loop-contract transformation of the findEventCandidates loop), "
+          "IEEE sign lemmas for the secant quotient/product, MinWindow and bias lemmas. Assumed: contracts of the five System entry points used by the time "
+          "stepper (schedule not in the past / consistent with the advanced time, handlers do not move time), finite witness values, viable indices in range, "
+          "split completeness link, interpolation/back-up effect on times."),
+    technique="CBMC function contracts (dfcc), loop contracts with ghost state (localisation loop, time stepper loop cut at integ->stepTo by contract), textual loop-contract transformation with ghost positions (findEventCandidates), ghost call log, loop-free full-domain harnesses for the sign algebra, bounded refutation companion",
     design_ref="4 C22")
 SPEC = os.path.join(VERIF, "specs", PID)
 SPEC19 = os.path.join(VERIF, "specs", "C19")
@@ -72,9 +80,19 @@ def build_event_unit(ctx):
     return path
 
 
+_head = {}
+
+
+def shared_head(ctx):
+    """C19 head (pre.h, status enums, inline IntegratorRep accessors), cut once per run and shared by the localisation and the time stepper units"""
+    if "h" not in _head:
+        _head["h"] = C19.common_head(ctx)
+    return list(_head["h"])
+
+
 def build_loc_unit(ctx):
     """event part of takeOneStep (everything behind the step-acceptance loop) + window bookkeeping of setTriggeredEvents"""
-    parts = C19.common_head(ctx)
+    parts = shared_head(ctx)
     parts.append(cut_inline(ctx, INTEGREP_H, r"const State& getInterpolatedState\(\) const\s*", "IntegratorRep::getInterpolatedState",
                             "static const struct State* getInterpolatedState(const struct IntegratorRep* self)", ["interpolatedState"],
                             extra=lambda r: r.sub("reference-return->pointer", r"(?<![\w.>&])interpolatedState\b", "&interpolatedState", 1)))
@@ -142,6 +160,9 @@ def main(ctx):
     try:
         ev = build_event_unit(ctx)
         loc = build_loc_unit(ctx)
+        ts = B.build_ts_unit(ctx, shared_head(ctx))
+        sup = B.build_supplement_unit(ctx, C19)
+        sch = B.build_sched_unit(ctx)
     except ExtractionError as e:
         ctx.undecide("extraction: %s" % e)
         return ctx.finish()
@@ -170,14 +191,38 @@ def main(ctx):
     J(cbmc_unit, "localize.setTriggeredEvents", [loc], "h_setTriggered", enforce="setTriggeredEvents", cbmc_args=CHK,
       require_props=[r"postcondition"], function="IntegratorRep::setTriggeredEvents (window bookkeeping)", timeout=300)
     # --- findEventCandidates: the real loop over contracted sequence stubs ---
-    FECCHK = CHK + ["--no-malloc-may-fail"] if False else CHK
+    FECCHK = CHK + ["--no-malloc-may-fail"]      # harness storage: symbolic-size allocations that succeed
     for nm, h, what in (("fec.all", "h_fec_all", "no viable list: all triggers examined"), ("fec.narrow", "h_fec_narrow", "viable list narrowed")):
-        J(cbmc_unit, nm, [ev], h, no_dfcc=True, cc_args=["-DFEC_PLAIN"], cbmc_args=CHK, min_obligations=40, require_props=[r"findEventCandidates__ind\.assertion", r"fec_induction\.assertion"],
+        J(cbmc_unit, nm, [ev], h, no_dfcc=True, cc_args=["-DFEC_PLAIN"], cbmc_args=FECCHK, min_obligations=40, require_props=[r"findEventCandidates__ind\.assertion", r"fec_induction\.assertion"],
           function="IntegratorRep::findEventCandidates (%s)" % what, timeout=300)
     J(cbmc_unit, "fec.bounded4", [ev], "h_fec_bounded", no_dfcc=True, cc_args=["-DFEC_PLAIN"], cbmc_args=CHK + ["--unwind", "5", "--unwinding-assertions"], min_obligations=8,
       bounded="at most 4 event triggers / 4 viable candidates (concrete arrays, loops unwound with unwinding assertions)",
       function="IntegratorRep::findEventCandidates (bounded refutation companion)", timeout=600)
     J(cover_unit, "fec.cover", [ev], "h_fec_cover", expect_min=4, function="findEventCandidates contract preconditions")
+    for nm, h in (("fec.all.cover", "h_fec_all"), ("fec.narrow.cover", "h_fec_narrow")):
+        J(cover_unit, nm, [ev], h, cc_args=["-DFEC_PLAIN", "-DFEC_COVER"], cbmc_args=["--no-malloc-may-fail", "--object-bits", "12"], expect_min=6, timeout=300,
+          function="findEventCandidates: loop body end and loop exit reachable under the invariant (vacuity guard)")
+    # --- TimeStepperRep::stepTo against the C19 contracts of Integrator::stepTo / reinitialize ---
+    TSREPL = ["AbstractIntegratorRep_stepTo", "IntegratorRep_reinitialize", "sys_realize", "sys_calcTimeOfNextScheduledEvent", "sys_calcTimeOfNextScheduledReport",
+              "sys_reportEvents", "sys_handleEvents", "rep_getTriggeredEvents", "stepTo_supplement"]
+    J(cbmc_unit, "timestepper.stepTo", [ts], "h_timestepper", enforce="TimeStepperRep_stepTo", replace=TSREPL, loop_contracts=True,
+      cbmc_args=CHK + ["--no-signed-overflow-check"], min_obligations=60, timeout=600, function="TimeStepperRep::stepTo",
+      require_props=[r"TimeStepperRep_stepTo\.postcondition", r"loop_invariant_step", r"loop_invariant_base", r"AbstractIntegratorRep_stepTo\.precondition",
+                     r"IntegratorRep_reinitialize\.precondition", r"sys_handleEvents\.precondition", r"sys_reportEvents\.precondition",
+                     r"sys_calcTimeOfNextScheduledEvent\.precondition", r"TS_stepTo\.assertion", r"TS_reinitialize\.assertion"])
+    J(cover_unit, "timestepper.cover", [ts], "h_ts_cover", expect_min=6, function="TimeStepperRep::stepTo precondition (class invariant of stepper + integrator)")
+    J(cbmc_unit, "stepto.supplement", [sup], "h_stepTo_supplement", enforce="stepTo_supplement_proof",
+      replace=["takeOneStep", "createInterpolatedState", "saveTimeAndStateAsPrevious", "saveStateAndDerivsAsPrevious", "saveStateDerivsAsPrevious", "realizeStateDerivatives", "opaque_autoUpdateDiscreteVariables"],
+      loop_contracts=True, cbmc_args=CHK + ["--no-signed-overflow-check"], require_props=[r"stepTo_supplement_proof\.postcondition", r"loop_invariant_step"],
+      function="AbstractIntegratorRep::stepTo (supplementary clauses S0,S1 used by the time stepper)", timeout=600)
+    # --- System::Guts::calcTimeOfNextScheduledEventImpl / ...ReportImpl: min over the subsystems + exactly the ids scheduled then (finding F9, fixed by 710e963f) ---
+    SCHCHK = ["--bounds-check", "--pointer-check", "--object-bits", "12", "--no-malloc-may-fail", "--no-signed-overflow-check"]
+    for which, h in (("Event", "h_sched_event"), ("Report", "h_sched_report")):
+        J(cbmc_unit, "system.calcTimeOfNextScheduled%s" % which, [sch], h, no_dfcc=True, cbmc_args=SCHCHK, min_obligations=30,
+          require_props=[r"calcTimeOfNextScheduled%sImpl__ind\.assertion" % which, r"sched_harness\.assertion"],
+          function="System::Guts::calcTimeOfNextScheduled%sImpl" % which, timeout=300)
+        J(cover_unit, "system.calcTimeOfNextScheduled%s.cover" % which, [sch], h, cc_args=["-DSCH_COVER"], cbmc_args=["--no-malloc-may-fail", "--object-bits", "12"], expect_min=3, timeout=300,
+          function="calcTimeOfNextScheduled%sImpl: loop exit reachable under the invariants with the ghost positions in use (vacuity guard)" % which)
     J(cbmc_unit, "event.split_lemma", [ev], "h_split_lemma", no_dfcc=True, min_obligations=1, function="sign/classify/mask split lemma", timeout=300)
     parallel(jobs)
     ctx.trust("cbmc/goto-cc/goto-instrument 6.11.0 (C front end, dfcc contracts, loop contracts), MiniSat")
@@ -186,16 +231,36 @@ def main(ctx):
     ctx.assume("trusted IEEE sign lemmas in estimateRootTime: 0 <= fl(fHigh/(fHigh-fl(bias*fLow))) <= 1 for finite opposite-sign fLow,fHigh and bias>0; 0 <= fl(x*h) <= h for 0<=x<=1")
     ctx.assume("MinWindow = SignificantReal*max(1,tAdvanced) by lemma: >= 2^-50, finite, and max(1,t) <= MinWindow*2^50 (SignificantReal = eps^(7/8) ~ 2e-14 > 2^-50); times in [0, 1e300]")
     ctx.assume("secant bias stays a positive finite double (vf_bias_half/double): under/overflow needs > 1000 consecutive same-side iterations; the assert(bias>0) of estimateRootTime is therefore discharged only modulo this")
-    ctx.assume("findEventCandidates seen from takeOneStep through the count abstraction findEventCandidates_v (specs/C22/loc_contracts.h): list only narrowed, estimates in the bracket "
-               "(strictly inside when wider than the requirement), narrowestWindow >= minWindow, split completeness (sign lemma proved in event.split_lemma, link to the Array_ payload assumed). "
-               "The real findEventCandidates loop is NOT yet under contract (its per-trigger body is: units event.* and event.reported_transition)")
+    ctx.assume("findEventCandidates seen from takeOneStep through the count abstraction findEventCandidates_v (specs/C22/loc_contracts.h): its requires and its clauses (a)-(d) "
+               "(list only narrowed; no candidate -> Infinity; earliest estimate in the bracket, strictly inside when wider than the requirement; narrowestWindow >= minWindow) are the "
+               "macros of specs/C22/fec_abs.h and are PROVED on the real findEventCandidates loop as findEventCandidates.abs.a-d in units fec.all / fec.narrow. Still ASSUMED there: "
+               "split completeness (sign lemma proved in event.split_lemma; the link 'the viable list is the candidate list of the enclosing bracket' is not), and that the count "
+               "handed to the abstraction is the length of the Array_ the real call receives (extractor rule)")
+    ctx.assume("findEventCandidates payload: Array_ = (data, length) with push_back never failing (ghost capacity = one element per examined trigger, every push proved inside); "
+               "elements of the viable list are trigger indices in [0,nEvents) (assumed pointwise in the accessor stub idx_at; PROVED for every list the function delivers, clause 3); "
+               "event trigger values are finite (accessor stub vec_get); accuracyInUse*timeScaleInUse*window is ANY double (over-approximation, no lemma); "
+               "estimateRootTime enters by the contract proved in event.estimateRootTime (executable form: assert requires, nondet, assume ensures)")
+    ctx.assume("System::Guts::calcTimeOfNextScheduledEvent/ReportImpl: the per-subsystem call delivers a non-NaN time and a list of < 100000 ids (stub); Array_<EventId> = (data, n) over storage "
+               "of arbitrary symbolic capacity (clauses are about positions inside it); the State argument and includeCurrentTime are passed through unchanged")
+    ctx.assume("TimeStepperRep::stepTo: contracts ASSUMED on the System entry points (specs/C22/ts_pre.h): calcTimeOfNextScheduledEvent/Report answer a non-NaN time >= the queried "
+               "state's time, strictly later when the current time is excluded; the event answer is >= the integrator's advanced time (schedule consistency, the assumption C19 puts on its "
+               "caller); handleEvents fills a valid status + lowest modified stage, does not move time and does not touch the integrator's bookkeeping; reportEvents/realize touch nothing "
+               "in the view. Array_<EventId> values are list tokens. Handler options (constraint tolerance, norm) are payload and dropped")
+    ctx.assume("TimeStepperRep::stepTo precondition: class invariant CINV of the integrator (C19), requested time not NaN and >= the advanced time (re-established by the postcondition: holds for "
+               "any sequence of non-decreasing requests after initialize()), lastEventTime/lastReportTime are the times scheduled events/reports were last handled (ghost)")
+    ctx.assume("Integrator::stepTo / reinitialize enter the time stepper unit ONLY by their C19 contracts (specs/C19/contracts.h) plus the two supplementary clauses of "
+               "specs/C22/stepto_supplement.h (exception flag boolean; ReachedScheduledEvent only with scheduledEventTime < reportTime), which are PROVED on the real stepTo body in unit stepto.supplement")
     ctx.assume("createInterpolatedState/backUpAdvancedStateByInterpolation set the interpolated/advanced time to t and require tPrev < tAdvanced, tPrev <= t <= tAdvanced (their real asserts); "
                "attemptDAEStep leaves the advanced state at t1 (precondition of the event part)")
     if ctx.tier != "thorough":
         ctx.assume("quick tier: the contract of estimateRootTime (bracket + strict interior) is discharged only in the thorough tier (about 5 min of SAT on the clamps' double adders)")
     ctx.not_decided += ["that a sign change INSIDE a step is seen at all, and that crossings are reported in time order without skipping persistent ones (needs the trajectory)",
-                        "findEventCandidates loop over the Array_ payload: equal list lengths, order, earliestTimeEst == min of the estimates (planned as a bounded unit, not built)",
-                        "TimeStepperRep::stepTo dispatch (handlers per status, reinitialize before the next stepTo), System::handleEvents, Periodic handlers/reporters: not built",
+                        "findEventCandidates: that narrowestWindow is ATTAINED by some candidate's requirement (only minWindow <= narrowestWindow <= every requirement is proved; swapping the "
+                        "min/max nesting, which always yields minWindow, is consistent with the property text and survives); NaN/infinite witness values",
+                        "System::handleEvents / reportEvents dispatch to the handlers, DefaultSystemSubsystem's own scan over its handlers, "
+                        "PeriodicEventHandler/PeriodicEventReporter::getNextEventTime (floor of a symbolic quotient and a symbolic product: out of SAT reach): not under contract",
+                        "TimeStepperRep::stepTo: termination of its loop (e.g. a mutant that never returns at the requested time is not caught), exceptions thrown by handlers, the returned time "
+                        "after the simulation is over (the C19 contract of reinitialize leaves the interpolation flag unspecified there), requests behind the advanced time",
                         "termination of the localisation loop; event-time ordering inside setTriggeredEvents (calcEventOrder)",
                         "trajectory-level: the before-state returned at tLow is re-interpolated after the advanced state was backed up to tHigh, so its witness value need not equal the eLow used "
                         "during localisation (native driver: in about 10% of localised events the witness evaluated on the returned states does not bracket the listed crossing) - outside the contracts"]
@@ -203,7 +268,12 @@ def main(ctx):
                        "never both; none otherwise; incl. 0/NaN/inf), each of its five functions against its own contract, the split lemma; the event part of takeOneStep with its localisation "
                        "do-while under a loop invariant (all iterations): reported window t0 <= tLow < tHigh <= t1, tHigh == advanced time after the backup, width <= narrowestWindow, candidates "
                        "non-empty, pending report time never strictly inside, every interpolation request within [tPrev,tAdvanced], setTriggeredEvents' own assert; the window bookkeeping of "
-                       "setTriggeredEvents. This discharges the event half of the takeOneStep contract that C19 assumes.")
+                       "setTriggeredEvents. This discharges the event half of the takeOneStep contract that C19 assumes. "
+                       "findEventCandidates (any number of triggers, both uses): the six clauses findEventCandidates.post.1-6 and the count abstraction abs.a-d by a loop invariant over ghost "
+                       "positions (base + step + exit), plus a bounded companion (<= 4 triggers, concrete arrays, reference scan). TimeStepperRep::stepTo: every precondition of the C19 contracts "
+                       "of stepTo and reinitialize, of the handler/report stubs (owed cause, list, time) and the call-log assertions, the loop invariant and the exit clause. "
+                       "System::Guts::calcTimeOfNextScheduledEvent/ReportImpl (any number of subsystems and ids, nested loop invariants with ghost (subsystem, position) pairs): delivered time == min of the "
+                       "subsystems' times, delivered ids == exactly the concatenation in subsystem order of the lists of the subsystems scheduled at that time.")
     return ctx.finish(replayer=lambda ob: replay(ctx, ob))
 
 
@@ -212,8 +282,10 @@ _exe = {}
 
 def replay(ctx, ob):
     if "exe" not in _exe:
+        # compiled together with the CURRENT tree's AbstractIntegratorRep.cpp / Integrator.cpp / TimeStepper.cpp (they interpose the copies in the
+        # private library build) and including the current IntegratorRep.h, so a mutated tree is replayed without rebuilding the libraries
         _exe["exe"] = native_build(ctx, "c22_replay", os.path.join(VERIF, "replay/c22_replay.cpp"),
-                                   extra_srcs=[ABSTRACT_CPP, INTEGRATOR_CPP], libs=True, extra_inc=[INTEG_SRC], timeout=900)
+                                   extra_srcs=[ABSTRACT_CPP, INTEGRATOR_CPP, TIMESTEPPER_CPP], libs=True, extra_inc=[INTEG_SRC], timeout=900)
     exe = _exe["exe"]
     tries = []
     def go(args, t=300):
@@ -222,12 +294,25 @@ def replay(ctx, ob):
         if "Assertion `" in e:      # an assert of the real code fired on a real run: that is a failing input
             o += "\nREPRODUCED: " + e.strip()[-300:]
         return o
+    def hit(o):
+        return re.search(r"^REPRODUCED:", o, re.M) is not None
+    if ob.unit.startswith("fec."):
+        for seed in ("1", "2"):
+            if hit(go(["fec", seed, "150"], 300)):
+                return dict(tries=tries, counterexample_note="abstract counterexample (ghost positions) in the obligation's trace; native witness found by the reference-scan search"), True
+        return dict(tries=tries), False
+    if ob.unit.startswith("system.calcTimeOfNextScheduled"):
+        return dict(tries=tries, witness_class="ids-of-later-scheduled-event-of-earlier-subsystem-kept"), hit(go(["schedule"], 120))
+    if ob.unit.startswith("timestepper."):
+        for seed in ("1", "2"):
+            o = go(["timestepper", seed, "60"], 60)
+            if hit(o):
+                return dict(tries=tries), True
+        return dict(tries=tries, note="a native run that does not finish within 60 s is recorded as a timeout in `tries` (possible non-termination), not as a reproduction"), False
     if ob.unit.startswith("event."):
-        o = go(["classify"])
-        if "REPRODUCED:" in o:
+        if hit(go(["classify"])):
             return dict(tries=tries), True
     for seed in ("1", "2"):
-        o = go(["localize", seed, "300"], 600)
-        if "REPRODUCED:" in o:
+        if hit(go(["localize", seed, "300"], 600)):
             return dict(tries=tries), True
     return dict(tries=tries), False
